@@ -215,6 +215,16 @@ def run_case(case_id: int):
                     manager.call_rsync = orig_rsync
                     backup_utils._sqlite_backup = orig_dump  # pylint: disable=protected-access
                 inject('after_rest')
+                # the four copy steps as the model of rsync assumes them: source, and no option beyond the ones whose meaning the
+                # guards of Dos.Backup rely on (an option such as --size-only / --ignore-existing / --append changes what "copied" means)
+                expected_calls = [('loose', []), ('packs.idx', ['--checksum']), ('packs', []),
+                                  ('c', ['--exclude', 'loose', '--exclude', 'packs.idx', '--exclude', 'packs.idx-wal', '--exclude', 'packs.idx-shm',
+                                         '--exclude', 'packs'])]
+                got_calls = [(rc_['src'], rc_['extra']) for rc_ in rsync_calls]
+                if got_calls != expected_calls:
+                    res['breaks'].append({'where': f'rsync invocations of backup {bi}', 'model': str(expected_calls)[:400], 'real': str(got_calls)[:400],
+                                          'theorem_or_correspondence': 'Dos.Backup phase guards (what rsync is assumed to do) vs the rsync calls made',
+                                          'case': {'case_id': case_id}})
                 fin = ask('bk ev finish')
                 img = ask('bk image')
                 res['stats']['backups'] = res['stats'].get('backups', 0) + 1
